@@ -515,13 +515,13 @@ pub fn arb_scenario() -> impl Strategy<Value = Scenario> {
 pub fn run(ctx: &Ctx) {
     ctx.rule("traffic states at the instant of the signal: 0..16 connections each {just accepted, idle keep-alive, half-sent request, short handler, handler blocked on a harness gate, 6 MB response with a reader that does not read, WebSocket open}, pools of 1..8 threads (often fully occupied with queued connections), signal before the first connection (even before run), after the states are established, or concurrently with a burst of connects (offset 0..5 ms); bind 127.0.0.x, 0.0.0.0 and [::] with an explicit free port. Oracle: a probe is served before the signal (when a worker is free), `run` returns Ok within 10 s (else one extra connection is made to pinpoint a lost wake-up), the same address binds again at once, and every request fully sent before the signal gets its complete response after the gate opens. Non-trivial: a connection that is not idle at the signal, a fully occupied pool, or a signal concurrent with connects; distinct by scenario");
     ctx.assume("threaded runtime; timing is sampled, not controlled; bounded time is the property (10 s margin, typical return is milliseconds); connections racing with the signal are not required to be answered");
-    let cases = ctx.tier.pick(1920u32, 16000u32);
+    let cases = ctx.share(ctx.tier.pick(1920u32, 16000u32)).max(16);
     let nshards = 16;
     crate::engine::shards(nshards, |i| {
         pt::run(
             ctx,
             "scenario",
-            pt::Opts::new(cases / nshards as u32).salt(2000 + i as u64).shrink_iters(24),
+            pt::Opts::new(cases / nshards as u32).salt(ctx.salt_of(2000 + i as u64)).shrink_iters(24),
             arb_scenario(),
             |s| serde_json::to_value(s).unwrap(),
             |s| {
@@ -553,7 +553,7 @@ pub fn run(ctx: &Ctx) {
         );
     });
     // "no matter how many connections are idle": so many that the process is out of descriptors and accept fails
-    for k in 0..ctx.tier.pick(2usize, 10usize) {
+    for k in 0..if ctx.chunk.map_or(true, |(c, _)| c == 0) { ctx.tier.pick(2usize, 10usize) } else { 0 } {
         ctx.case(hash_of(&("fd-exhaustion", k)), true, &["descriptors-exhausted-at-signal"]);
         for f in fd_exhaustion(k) {
             if f.sig.starts_with("harness-") {
